@@ -1,1 +1,93 @@
-// Kani harnesses (cfg(kani) only); pulled in by a #[path] hook in /repo.
+// Kani harness for the rcomp command line -> Settings mapping (cfg(kani) only; child of the bin crate root).  C17.
+use super::*;
+use rustemo_compiler::verif_kani_lib::{settings_snapshot, settings_strings};
+use std::ffi::OsStr;
+
+include!("/verif/build/gen/cli_mapping.rs");
+
+// Settings::default() and Settings::trace() touch the process environment (foreign calls).  Stubbed: no variable set.
+fn stub_env_var<K: AsRef<OsStr>>(_key: K) -> Result<String, std::env::VarError> {
+    Err(std::env::VarError::NotPresent)
+}
+fn stub_env_set_var<K: AsRef<OsStr>, V: AsRef<OsStr>>(_key: K, _value: V) {}
+
+fn any_cli() -> Cli {
+    Cli {
+        force: kani::any(),
+        dot: kani::any(),
+        noactions: kani::any(),
+        trace: kani::any(),
+        grammar_file_or_dir: PathBuf::new(),
+        outdir_root: if kani::any() { Some(PathBuf::new()) } else { None },
+        outdir_actions_root: if kani::any() { Some(PathBuf::new()) } else { None },
+        prefer_shifts: kani::any(),
+        no_shifts_over_empty: kani::any(),
+        table_type: match kani::any::<u8>() { 0 => TableType::LALR, 1 => TableType::LALR_PAGER, _ => TableType::LALR_RN },
+        parser_algo: if kani::any() { ParserAlgo::LR } else { ParserAlgo::GLR },
+        generator_table_type: if kani::any() { GeneratorTableType::Arrays } else { GeneratorTableType::Functions },
+        lexer_type: if kani::any() { LexerType::Default } else { LexerType::Custom },
+        input_type: String::new(),
+        builder_type: match kani::any::<u8>() { 0 => BuilderType::Default, 1 => BuilderType::Generic, _ => BuilderType::Custom },
+        builder_loc_info: kani::any(),
+        lexical_disamb_most_specific: if kani::any() { Some(kani::any()) } else { None },
+        lexical_disamb_longest_match: if kani::any() { Some(kani::any()) } else { None },
+        lexical_disamb_grammar_order: if kani::any() { Some(kani::any()) } else { None },
+        fancy_regex: kani::any(),
+        partial_parse: kani::any(),
+        no_skip_ws: kani::any(),
+        print_table: kani::any(),
+        exclude: vec![],
+        verbosity: kani::any(),
+    }
+}
+
+/// C17 "... whether the settings are given through the library API or through the equivalent rcomp command-line
+/// options": for every combination of the bool/enum options, the Settings value main() builds equals the value
+/// obtained by the documented API calls (written here from the --help texts, in an order of their own).
+/// complete over the bool/enum/Option<bool>/Option<path-present> fields; paths, input_type and exclude are held concrete.
+#[kani::proof]
+#[kani::stub(std::env::var, stub_env_var)]
+#[kani::stub(std::env::set_var, stub_env_set_var)]
+fn cli_equals_api() {
+    let cli = any_cli();
+    // documented: grammar order cannot be switched off for LR (the API panics) -- excluded here, covered below
+    let glr = matches!(cli.parser_algo, ParserAlgo::GLR);
+    kani::assume(glr || cli.lexical_disamb_grammar_order != Some(false));
+
+    // --- the API route, from the option descriptions ---
+    let mut api = Settings::new();
+    api = api.parser_algo(cli.parser_algo.clone()); // "Parser algorithm"
+    if !glr {
+        api = api.table_type(cli.table_type.clone()); // "The type of LR table" (GLR always uses LALR_RN)
+        api = api.prefer_shifts(cli.prefer_shifts); // "Prefer shifts ..." (GLR never prefers shifts)
+        api = api.prefer_shifts_over_empty(!cli.no_shifts_over_empty); // "Do not prefer shifts over empty reductions."
+    }
+    api = api.force(cli.force); // "Regenerate output actions file even if exists"
+    api = api.dot(cli.dot);
+    api = api.actions(!cli.noactions); // "Do not generate actions"
+    api = api.trace(cli.trace);
+    api = api.fancy_regex(cli.fancy_regex);
+    api = api.partial_parse(cli.partial_parse);
+    api = api.skip_ws(!cli.no_skip_ws); // "Should whitespace be skipped" negated flag
+    api = api.print_table(cli.print_table);
+    api = api.generator_table_type(cli.generator_table_type.clone());
+    api = api.lexer_type(cli.lexer_type.clone());
+    api = api.builder_type(cli.builder_type.clone());
+    api = api.builder_loc_info(cli.builder_loc_info);
+    api = api.input_type(String::new());
+    api = api.exclude(vec![]);
+    if let Some(v) = cli.lexical_disamb_most_specific { api = api.lexical_disamb_most_specific(v); }
+    if let Some(v) = cli.lexical_disamb_longest_match { api = api.lexical_disamb_longest_match(v); }
+    if let Some(v) = cli.lexical_disamb_grammar_order { api = api.lexical_disamb_grammar_order(v); }
+    if cli.outdir_root.is_some() { api = api.out_dir_root(PathBuf::new()); }
+    if cli.outdir_actions_root.is_some() { api = api.out_dir_actions_root(PathBuf::new()); }
+    let want = settings_snapshot(&api);
+
+    // --- the command-line route: the statements of main(), lifted verbatim ---
+    let got_settings = lifted_cli_to_settings(cli, Settings::new());
+    let got = settings_snapshot(&got_settings);
+    assert!(got == want);
+    assert!(settings_strings(&got_settings) == (0, 0));
+    kani::cover!(glr, "GLR chosen on the command line");
+    kani::cover!(!glr, "LR chosen on the command line");
+}
